@@ -264,6 +264,18 @@ def handlers(ctx, res):
                 isinstance(k, ast.Constant) for k in n.keys):
             table = {k.value: norm(v) for k, v in zip(n.keys, n.values)}
     if table is None:
+        # a module-level constant subscripted by the function
+        used = {n.value.id for n in ast.walk(fn)
+                if isinstance(n, ast.Subscript) and isinstance(n.value,
+                                                               ast.Name)}
+        for st in mod.tree.body:
+            if isinstance(st, ast.Assign) and isinstance(st.value, ast.Dict) \
+                    and any(isinstance(t, ast.Name) and t.id in used
+                            for t in st.targets) and st.value.keys and all(
+                    isinstance(k, ast.Constant) for k in st.value.keys):
+                table = {k.value: norm(v) for k, v in zip(st.value.keys,
+                                                          st.value.values)}
+    if table is None:
         raise AnalysisError("_handle_tree: handler table not found")
     connectors = {n for n, shapes in nodes.items()
                   if n in ("notify", "quiet")}
@@ -330,16 +342,13 @@ def notify_flow(ctx, res):
     res.oblige(ok, "_handle_series:dot-means-notify", mod.loc(fn),
                f"the left operand's notify flag is not `connector.data == "
                f"{dot_rule[0]!r}` (the rule spelled '.')")
-    flagvar = None
-    for s in ast.walk(fn):
-        if isinstance(s, ast.Assign) and cmpn and s.value is cmpn[0]:
-            flagvar = s.targets[0].id
+    from ..pyfacts import expand_locals
     rets = [n for n in ast.walk(fn) if isinstance(n, ast.Return)]
     ok = False
-    if rets and flagvar:
-        want = (f"_handle_tree(left, {flagvar}).then(_handle_tree(right, "
-                f"{ps[1]}))")
-        ok = norm(rets[0].value) == want
+    if rets and cmpn:
+        want = (f"_handle_tree(left, {norm(cmpn[0])}).then(_handle_tree("
+                f"right, {ps[1]}))")
+        ok = norm(expand_locals(fn, rets[0].value)) == want
     res.oblige(ok, "_handle_series:flags", mod.loc(fn),
                "series must be left(notify iff '.').then(right(inherited "
                "notify))")
@@ -347,7 +356,7 @@ def notify_flow(ctx, res):
     ps = [a.arg for a in fn.args.args]
     rets = [n for n in ast.walk(fn) if isinstance(n, ast.Return)]
     res.instance("_handle_parallel", mod.loc(fn))
-    res.oblige(bool(rets) and norm(rets[0].value) ==
+    res.oblige(bool(rets) and norm(expand_locals(fn, rets[0].value)) ==
                f"_handle_tree(left, {ps[1]}) | _handle_tree(right, {ps[1]})",
                "_handle_parallel:flags", mod.loc(fn),
                "both branches of ',' must inherit the notify flag")
@@ -395,8 +404,15 @@ def notify_flow(ctx, res):
     fn = repo.func(PARSING, "parse")
     rets = [n for n in ast.walk(fn) if isinstance(n, ast.Return)]
     res.instance("parse", mod.loc(fn))
-    res.oblige(bool(rets) and norm(rets[-1].value) ==
-               "_handle_tree(tree, notify=True)", "parse:root-notify",
+    def _root_notify(e):
+        e = expand_locals(fn, e)
+        if not (isinstance(e, ast.Call) and norm(e.func) == "_handle_tree"):
+            return False
+        flag = e.args[1] if len(e.args) > 1 else next(
+            (k.value for k in e.keywords if k.arg == "notify"), None)
+        return isinstance(flag, ast.Constant) and flag.value is True
+    res.oblige(bool(rets) and _root_notify(rets[-1].value),
+               "parse:root-notify",
                mod.loc(fn), "the last element must notify: parse() has to "
                "start the translation with notify=True")
     hs = [h for t in ast.walk(fn) if isinstance(t, ast.Try)
